@@ -56,6 +56,9 @@ func checkC04(ci interface{}, st *Stats) error {
 	c := ci.(*C04Case)
 	g, in := c.G, c.In
 	g.number()
+	if singleSeesRTrim(g) {
+		return Discard{"Single over a right-trimmed sequence: the reference does not describe it"}
+	}
 	classifyGrammar(g, st)
 	ref := NewRef(g, in)
 	want := ref.T[0][0]&(1<<uint(len(in))) != 0
